@@ -1,5 +1,6 @@
 import GSProofs.Lemmas.ResponderRun
 import GSProofs.Lemmas.ResponderMsg
+import GSProofs.Lemmas.ResponderDedup
 /-!
 Lemmas for C03, part 4: `prepareQuery` of an accepted request with well-formed extensions on a
 tracker in which the request id is fresh; the operations of a thread are `Good`; final status.
@@ -11,7 +12,8 @@ open GS.LinkTrack GS.Responder
 `FinishTracking` erases every record of a finished request). -/
 def Fresh (p : PeerTracker) (r : Req) : Prop :=
   aget p.sentCount r = none ∧ aget p.skipFirst r = none ∧ aget p.dedupKeys r = none ∧
-  aget p.main.missing r = none ∧ ∀ k t, aget p.alts k = some t → aget t.missing r = none
+  aget p.main.missing r = none ∧ (∀ k t, aget p.alts k = some t → aget t.missing r = none) ∧
+  aget p.main.linksByReq r = none
 
 /-- some request in progress in the dedup scope `key` has traversed `c` with its block. -/
 def inUse (p : PeerTracker) (key : Option Key) (c : Cid) : Bool :=
@@ -22,18 +24,15 @@ def V (p : PeerTracker) (r : Req) (n : Nat) (sk : Int) (T : LinkTracker) : Prop 
   cnt p r = n ∧ skipOf p r = sk ∧ p.trackerOf r = T
 
 theorem V_none {p : PeerTracker} {r : Req} (hf : Fresh p r) : V p r 0 0 (p.scopeTracker none) := by
-  obtain ⟨h1, h2, h3, _, _⟩ := hf
+  obtain ⟨h1, h2, h3, _, _, _⟩ := hf
   refine ⟨by simp [cnt, h1], by simp [skipOf, h2], ?_⟩
   simp [PeerTracker.trackerOf, h3]
 
 theorem V_dedup {p : PeerTracker} {r : Req} (hf : Fresh p r) (k : Key) :
-    V (p.dedupKey r k) r 0 0 (p.scopeTracker (some k)) := by
-  obtain ⟨h1, h2, _, _, _⟩ := hf
-  refine ⟨by simp [cnt, PeerTracker.dedupKey, h1], by simp [skipOf, PeerTracker.dedupKey, h2], ?_⟩
-  simp only [PeerTracker.trackerOf, PeerTracker.dedupKey, aget_aset, if_true, PeerTracker.scopeTracker]
-  cases h : aget p.alts k with
-  | none => simp [aget_aset]
-  | some t => simp [h]
+    V (p.setDedupKey r k) r 0 0 (p.scopeTracker (some k)) := by
+  obtain ⟨h1, h2, h3, h4, _, h6⟩ := hf
+  exact ⟨by simp [cnt, setDedupKey_sentCount, h1], by simp [skipOf, setDedupKey_skipFirst, h2],
+    setDedupKey_fresh_trackerOf p r k h3 h6 h4⟩
 
 theorem V_ignore {p : PeerTracker} {r : Req} {n : Nat} {sk : Int} {T : LinkTracker}
     (h : V p r n sk T) (ls : List Cid) :
@@ -77,7 +76,7 @@ theorem foldl_record_missing (r : Req) (ls : List Cid) : ∀ T : LinkTracker,
 
 theorem scope_missing {p : PeerTracker} {r : Req} (hf : Fresh p r) (key : Option Key) :
     aget (p.scopeTracker key).missing r = none := by
-  obtain ⟨_, _, _, h4, h5⟩ := hf
+  obtain ⟨_, _, _, h4, h5, _⟩ := hf
   cases key with
   | none => simpa [PeerTracker.scopeTracker] using h4
   | some k =>
@@ -116,19 +115,19 @@ theorem prepare_ok' (p : PeerTracker) (r : Req) (e : Ext) (w : Want) (hw : e.wan
       | bad => simp [Ext.want?] at hw
       | absent =>
         simp only [Ext.want?, Option.some.injEq] at hw; subst hw
-        exact ⟨p, by cases hp <;> simp [prepareQuery, runStages, runStage, stages, GS.Generated.PrepareQuery.stages], by simp [PeerTracker.dedupKey, PeerTracker.ignoreBlocks, PeerTracker.skipFirstBlocks, setTracker_dedupKeys, aget_aset, hdk0], by intro x hx; simp [PeerTracker.dedupKey, PeerTracker.ignoreBlocks, PeerTracker.skipFirstBlocks, setTracker_dedupKeys, aget_aset, Ne.symm hx], fin p (V_none hf)⟩
+        exact ⟨p, by cases hp <;> simp [prepareQuery, runStages, runStage, stages, GS.Generated.PrepareQuery.stages], by simp [setDedupKey_dedupKeys, PeerTracker.ignoreBlocks, PeerTracker.skipFirstBlocks, setTracker_dedupKeys, aget_aset, hdk0], by intro x hx; simp [setDedupKey_dedupKeys, PeerTracker.ignoreBlocks, PeerTracker.skipFirstBlocks, setTracker_dedupKeys, aget_aset, Ne.symm hx], fin p (V_none hf)⟩
       | ok n =>
         simp only [Ext.want?, Option.some.injEq] at hw; subst hw
-        exact ⟨_, by cases hp <;> simp [prepareQuery, runStages, runStage, stages, GS.Generated.PrepareQuery.stages], by simp [PeerTracker.dedupKey, PeerTracker.ignoreBlocks, PeerTracker.skipFirstBlocks, setTracker_dedupKeys, aget_aset, hdk0], by intro x hx; simp [PeerTracker.dedupKey, PeerTracker.ignoreBlocks, PeerTracker.skipFirstBlocks, setTracker_dedupKeys, aget_aset, Ne.symm hx], fin _ (V_skip (V_none hf) n)⟩
+        exact ⟨_, by cases hp <;> simp [prepareQuery, runStages, runStage, stages, GS.Generated.PrepareQuery.stages], by simp [setDedupKey_dedupKeys, PeerTracker.ignoreBlocks, PeerTracker.skipFirstBlocks, setTracker_dedupKeys, aget_aset, hdk0], by intro x hx; simp [setDedupKey_dedupKeys, PeerTracker.ignoreBlocks, PeerTracker.skipFirstBlocks, setTracker_dedupKeys, aget_aset, Ne.symm hx], fin _ (V_skip (V_none hf) n)⟩
     | ok ls =>
       cases es with
       | bad => simp [Ext.want?] at hw
       | absent =>
         simp only [Ext.want?, Option.some.injEq] at hw; subst hw
-        exact ⟨_, by cases hp <;> simp [prepareQuery, runStages, runStage, stages, GS.Generated.PrepareQuery.stages], by simp [PeerTracker.dedupKey, PeerTracker.ignoreBlocks, PeerTracker.skipFirstBlocks, setTracker_dedupKeys, aget_aset, hdk0], by intro x hx; simp [PeerTracker.dedupKey, PeerTracker.ignoreBlocks, PeerTracker.skipFirstBlocks, setTracker_dedupKeys, aget_aset, Ne.symm hx], fin _ (V_ignore (V_none hf) ls)⟩
+        exact ⟨_, by cases hp <;> simp [prepareQuery, runStages, runStage, stages, GS.Generated.PrepareQuery.stages], by simp [setDedupKey_dedupKeys, PeerTracker.ignoreBlocks, PeerTracker.skipFirstBlocks, setTracker_dedupKeys, aget_aset, hdk0], by intro x hx; simp [setDedupKey_dedupKeys, PeerTracker.ignoreBlocks, PeerTracker.skipFirstBlocks, setTracker_dedupKeys, aget_aset, Ne.symm hx], fin _ (V_ignore (V_none hf) ls)⟩
       | ok n =>
         simp only [Ext.want?, Option.some.injEq] at hw; subst hw
-        exact ⟨_, by cases hp <;> simp [prepareQuery, runStages, runStage, stages, GS.Generated.PrepareQuery.stages], by simp [PeerTracker.dedupKey, PeerTracker.ignoreBlocks, PeerTracker.skipFirstBlocks, setTracker_dedupKeys, aget_aset, hdk0], by intro x hx; simp [PeerTracker.dedupKey, PeerTracker.ignoreBlocks, PeerTracker.skipFirstBlocks, setTracker_dedupKeys, aget_aset, Ne.symm hx],
+        exact ⟨_, by cases hp <;> simp [prepareQuery, runStages, runStage, stages, GS.Generated.PrepareQuery.stages], by simp [setDedupKey_dedupKeys, PeerTracker.ignoreBlocks, PeerTracker.skipFirstBlocks, setTracker_dedupKeys, aget_aset, hdk0], by intro x hx; simp [setDedupKey_dedupKeys, PeerTracker.ignoreBlocks, PeerTracker.skipFirstBlocks, setTracker_dedupKeys, aget_aset, Ne.symm hx],
           fin _ (V_skip (V_ignore (V_none hf) ls) n)⟩
   | ok k =>
     cases ei with
@@ -138,19 +137,19 @@ theorem prepare_ok' (p : PeerTracker) (r : Req) (e : Ext) (w : Want) (hw : e.wan
       | bad => simp [Ext.want?] at hw
       | absent =>
         simp only [Ext.want?, Option.some.injEq] at hw; subst hw
-        exact ⟨_, by cases hp <;> simp [prepareQuery, runStages, runStage, stages, GS.Generated.PrepareQuery.stages], by simp [PeerTracker.dedupKey, PeerTracker.ignoreBlocks, PeerTracker.skipFirstBlocks, setTracker_dedupKeys, aget_aset, hdk0], by intro x hx; simp [PeerTracker.dedupKey, PeerTracker.ignoreBlocks, PeerTracker.skipFirstBlocks, setTracker_dedupKeys, aget_aset, Ne.symm hx], fin _ (V_dedup hf k)⟩
+        exact ⟨_, by cases hp <;> simp [prepareQuery, runStages, runStage, stages, GS.Generated.PrepareQuery.stages], by simp [setDedupKey_dedupKeys, PeerTracker.ignoreBlocks, PeerTracker.skipFirstBlocks, setTracker_dedupKeys, aget_aset, hdk0], by intro x hx; simp [setDedupKey_dedupKeys, PeerTracker.ignoreBlocks, PeerTracker.skipFirstBlocks, setTracker_dedupKeys, aget_aset, Ne.symm hx], fin _ (V_dedup hf k)⟩
       | ok n =>
         simp only [Ext.want?, Option.some.injEq] at hw; subst hw
-        exact ⟨_, by cases hp <;> simp [prepareQuery, runStages, runStage, stages, GS.Generated.PrepareQuery.stages], by simp [PeerTracker.dedupKey, PeerTracker.ignoreBlocks, PeerTracker.skipFirstBlocks, setTracker_dedupKeys, aget_aset, hdk0], by intro x hx; simp [PeerTracker.dedupKey, PeerTracker.ignoreBlocks, PeerTracker.skipFirstBlocks, setTracker_dedupKeys, aget_aset, Ne.symm hx], fin _ (V_skip (V_dedup hf k) n)⟩
+        exact ⟨_, by cases hp <;> simp [prepareQuery, runStages, runStage, stages, GS.Generated.PrepareQuery.stages], by simp [setDedupKey_dedupKeys, PeerTracker.ignoreBlocks, PeerTracker.skipFirstBlocks, setTracker_dedupKeys, aget_aset, hdk0], by intro x hx; simp [setDedupKey_dedupKeys, PeerTracker.ignoreBlocks, PeerTracker.skipFirstBlocks, setTracker_dedupKeys, aget_aset, Ne.symm hx], fin _ (V_skip (V_dedup hf k) n)⟩
     | ok ls =>
       cases es with
       | bad => simp [Ext.want?] at hw
       | absent =>
         simp only [Ext.want?, Option.some.injEq] at hw; subst hw
-        exact ⟨_, by cases hp <;> simp [prepareQuery, runStages, runStage, stages, GS.Generated.PrepareQuery.stages], by simp [PeerTracker.dedupKey, PeerTracker.ignoreBlocks, PeerTracker.skipFirstBlocks, setTracker_dedupKeys, aget_aset, hdk0], by intro x hx; simp [PeerTracker.dedupKey, PeerTracker.ignoreBlocks, PeerTracker.skipFirstBlocks, setTracker_dedupKeys, aget_aset, Ne.symm hx], fin _ (V_ignore (V_dedup hf k) ls)⟩
+        exact ⟨_, by cases hp <;> simp [prepareQuery, runStages, runStage, stages, GS.Generated.PrepareQuery.stages], by simp [setDedupKey_dedupKeys, PeerTracker.ignoreBlocks, PeerTracker.skipFirstBlocks, setTracker_dedupKeys, aget_aset, hdk0], by intro x hx; simp [setDedupKey_dedupKeys, PeerTracker.ignoreBlocks, PeerTracker.skipFirstBlocks, setTracker_dedupKeys, aget_aset, Ne.symm hx], fin _ (V_ignore (V_dedup hf k) ls)⟩
       | ok n =>
         simp only [Ext.want?, Option.some.injEq] at hw; subst hw
-        exact ⟨_, by cases hp <;> simp [prepareQuery, runStages, runStage, stages, GS.Generated.PrepareQuery.stages], by simp [PeerTracker.dedupKey, PeerTracker.ignoreBlocks, PeerTracker.skipFirstBlocks, setTracker_dedupKeys, aget_aset, hdk0], by intro x hx; simp [PeerTracker.dedupKey, PeerTracker.ignoreBlocks, PeerTracker.skipFirstBlocks, setTracker_dedupKeys, aget_aset, Ne.symm hx],
+        exact ⟨_, by cases hp <;> simp [prepareQuery, runStages, runStage, stages, GS.Generated.PrepareQuery.stages], by simp [setDedupKey_dedupKeys, PeerTracker.ignoreBlocks, PeerTracker.skipFirstBlocks, setTracker_dedupKeys, aget_aset, hdk0], by intro x hx; simp [setDedupKey_dedupKeys, PeerTracker.ignoreBlocks, PeerTracker.skipFirstBlocks, setTracker_dedupKeys, aget_aset, Ne.symm hx],
           fin _ (V_skip (V_ignore (V_dedup hf k) ls) n)⟩
 
 theorem prepare_ok (p : PeerTracker) (r : Req) (e : Ext) (w : Want) (hw : e.want? = some w)
